@@ -40,6 +40,18 @@ class StubReader:
         self.data = list(blist(data))
         self.pos = 0
 
+    async def read(self, n=-1):
+        """asyncio.StreamReader.read: up to n bytes, at least one unless at EOF (the stub has everything buffered)"""
+        rem = len(self.data) - self.pos
+        if n is None or (isinstance(n, int) and n < 0):
+            n = rem
+        if n > rem:
+            n = rem
+        n = as_int(n)
+        out = bwrap(self.data[self.pos:self.pos + n])
+        self.pos += n
+        return out
+
     async def readexactly(self, n):
         rem = len(self.data) - self.pos
         if n > rem:
